@@ -86,6 +86,41 @@ def mem_accesses(fn, defs):
     return out
 
 
+def service_selector(ctx, f, ah):
+    """the abstract value to pass as the service's selector argument for AH = ah: the byte itself when the service takes a
+    u8; when it takes a value of another type, the result of the unique local conversion u8 -> that type (or -> Option
+    of it) run on the constant (`BiosService::from_ah(ah)`); None if there is no such conversion (not analysable)"""
+    P = ctx.program
+    ty = f["locals"][2]["ty"] if f["argc"] >= 2 else None
+    if ty is None:
+        return None
+    if ty == "u8":
+        return IntV.const("u8", ah)
+    short = ty.rsplit("::", 1)[-1]
+    cands = []
+    for s_ in ctx.facts.mir("bin")["sigs"]:
+        out = (s_.get("output") or "").replace(" ", "")
+        if s_.get("inputs") == ["u8"] and (out.endswith(short) or out.endswith(f"Option<{ty}>".replace(" ", "")) or out.endswith(short + ">")):
+            g = P.by_name.get(("bin", s_["name"]))
+            if g is not None:
+                cands.append(g)
+    if len(cands) != 1:
+        return None
+    I = Interp(P)
+    st = machine_state(I, P)
+    try:
+        r = I.run_fn(cands[0], [IntV.const("u8", ah)], st)
+    except Unsupported:
+        return None
+    if r is None:
+        return None
+    if r.kind == "enum" and str(r.name).split("<")[0].endswith("Option"):
+        if r.variant == 1 and r.fields:
+            return r.fields[0]
+        return None
+    return r
+
+
 def service_effects(fn, defs, P=None):
     """blocks of fn in which the service acts: an effect call, a machine-memory access, a call of a local helper that
     (transitively) does one of these, or the construction of a closure whose body does"""
@@ -158,8 +193,12 @@ def run(ctx, chk):
         for ah in sorted(DOC[n]):
             I = Interp(P)
             st = machine_state(I, P)
+            sel = service_selector(ctx, f, ah)
+            if sel is None:
+                chk.undecided_("C18.R1", f"{n}:AH={ah:02X}h", "the service's selector argument is not the AH byte and no unique conversion from it was found")
+                continue
             try:
-                I.run_fn(f, [RefV((0, "vm", ())), IntV.const("u8", ah)], st)
+                I.run_fn(f, [RefV((0, "vm", ())), sel], st)
             except Unsupported as e:
                 chk.undecided_("C18.R1", f"{n}:AH={ah:02X}h", str(e))
                 continue
@@ -422,10 +461,29 @@ def run(ctx, chk):
                     chk.ok("C18.R3", f"{svc}:selector", "function selector read with get_byte_reg(vm, AH)")
                 else:
                     chk.violation("C18.R3", "driver", f"{svc}-selector-{reg}", f"INT {num:02X}h selects its function from {reg}, not AH", wd)
+            typed_sel = False
             if ah_local is None:
-                chk.undecided_("C18.R3", f"{svc}:selector", "AH argument not traced to get_byte_reg")
-                continue
-            start = next(b for b in arm if M.term(drv["blocks"][b])[0] == "call" and M.term(drv["blocks"][b])[3]["l"] == ah_local)
+                # the selector may be a value computed from the AH byte (a service enum): follow it on symbolic terms
+                from symterm import SymFlow, subterms
+                Fd = SymFlow(drv)
+                ent, _, _ = Fd.run(headd, stop={headd})
+                breg = P.find_adt("util::data_util::ByteReg")
+                ah_i = next((i for i, v_ in enumerate(breg["variants"]) if v_["name"] == "AH"), None) if breg else None
+                regs_read = set()
+                if svc_calls[0] in ent:
+                    for x in subterms(Fd.call_args(ent[svc_calls[0]], svc_calls[0])[1]):
+                        if x[0] == "call" and x[1].endswith("get_byte_reg") and len(x[2]) > 1 and x[2][1][0] == "agg":
+                            regs_read.add(x[2][1][2])
+                if regs_read == {ah_i} and f["argc"] >= 2 and f["locals"][2]["ty"] != "u8":
+                    chk.ok("C18.R3", f"{svc}:selector", "function selector computed from get_byte_reg(vm, AH)")
+                    typed_sel = True
+                elif regs_read and regs_read != {ah_i}:
+                    chk.violation("C18.R3", "driver", f"{svc}-selector-other-register", f"INT {num:02X}h selects its function from byte register #{sorted(regs_read)}, not AH", wd)
+                    continue
+                else:
+                    chk.undecided_("C18.R3", f"{svc}:selector", "AH argument not traced to get_byte_reg")
+                    continue
+            start = None if typed_sel else next(b for b in arm if M.term(drv["blocks"][b])[0] == "call" and M.term(drv["blocks"][b])[3]["l"] == ah_local)
             accepted = set()
             rejected_clean = set()
             sdefs = Defs(f)
@@ -435,6 +493,24 @@ def run(ctx, chk):
             for i, l in enumerate(f["locals"][1:f["argc"] + 1], 1):
                 if l["ty"] == "u8":
                     ah_param = i
+            typed = f["argc"] >= 2 and f["locals"][2]["ty"] != "u8"
+            if typed:
+                # the service takes a value of its own selector type: the set of accepted bytes is where the conversion
+                # from the AH byte yields a value (V on the conversion, all 256 bytes); the service's match over that
+                # type is exhaustive by construction (the compiler checks it)
+                accepted = {v for v in range(256) if service_selector(ctx, f, v) is not None}
+                doc = DOC[svc]
+                fmt = lambda s_: "{" + ",".join(f"{x:02X}h" for x in sorted(s_)) + "}"
+                if accepted == doc:
+                    chk.ok("C18.R3", f"{svc}:driver-accepts", f"the selector conversion yields a service for exactly {fmt(doc)} (256 values decided)")
+                    chk.ok("C18.R3", f"{svc}:service-handles", "the service matches on the selector type (exhaustive)")
+                elif accepted:
+                    chk.violation("C18.R3", "driver", f"{svc}-accepted:{fmt(accepted ^ doc)}",
+                                  f"INT {num:02X}h: the selector conversion accepts AH in {fmt(accepted)}, documented {fmt(doc)}", wd)
+                else:
+                    chk.undecided_("C18.R3", f"{svc}:driver-accepts", "selector conversion not found")
+                chk.undecided_("C18.R3", f"{svc}:unsupported", "rejecting arm of a typed selector not followed")
+                continue
             for v in range(256):
                 sp = Spec(drv, ah_local, v, dd)
                 r = sp.reach(M.succs(drv["blocks"][start])[0], stop={headd})
@@ -552,8 +628,12 @@ def successful_read_rule(ctx, chk, fns):
         st = machine_state(I, P)
         st.frames[0]["$stored"] = IntV.const("bool", 0)
         unit = f"int_21:AH={ah:02X}h[read ok]"
+        sel = service_selector(ctx, f, ah)
+        if sel is None:
+            chk.undecided_("C18.R8", unit, "selector argument not analysable")
+            continue
         try:
-            I.run_fn(f, [RefV((0, "vm", ())), IntV.const("u8", ah)], st)
+            I.run_fn(f, [RefV((0, "vm", ())), sel], st)
         except Unsupported as e:
             chk.undecided_("C18.R8", unit, str(e))
             continue
